@@ -87,7 +87,7 @@ pub enum Step {
     Burn { who: usize, #[serde(with = "i128s")] amt: i128 },
 }
 #[derive(Clone, Debug, Serialize, Deserialize)]
-pub struct Cfg { pub actors: usize }
+pub struct Cfg { pub actors: usize, #[serde(default)] pub many_modules: bool }
 #[derive(Clone, Debug, Default)]
 struct Model { hooks: BTreeMap<usize, std::vec::Vec<usize>>, ct: BTreeMap<usize, bool>, cc: BTreeMap<usize, bool>, bound: bool, reg: BTreeSet<usize>, bal: BTreeMap<usize, i128>, counts: BTreeMap<usize, (u32, u32, u32)> }
 impl Model {
@@ -110,10 +110,22 @@ impl Check for RwaReal {
     fn clock_step(&self, n: u32) -> Option<Step> {
         Some(Step::Wait { n })
     }
+    fn probes(&self, _prop: &str) -> std::vec::Vec<&'static str> {
+        vec!["probe.max_modules_reached"]
+    }
     fn generate(&self, rng: &mut Rng, tier: Tier) -> (Cfg, std::vec::Vec<Step>) {
-        let cfg = Cfg { actors: 3 };
+        let cfg = Cfg { actors: 3, many_modules: rng.chance(10) };
         let nsteps = if tier == Tier::Quick { 30 + rng.below(30) } else { 30 + rng.below(70) } as usize;
         let mut steps = vec![Step::Bind { on: true }, Step::Register { who: 0, on: true }, Step::Register { who: 1, on: true }, Step::Mint { to: 0, amt: 10_000 }];
+        if cfg.many_modules {
+            // limit scenario: MAX_MODULES modules on one hook, one more refused, one removed, another admitted
+            let h = rng.below(5) as usize;
+            for k in 3..23usize { steps.push(Step::AddModule { hook: h, m: k }); }
+            steps.push(Step::AddModule { hook: h, m: 23 });
+            steps.push(Step::RemoveModule { hook: h, m: 3 + rng.below(20) as usize });
+            steps.push(Step::AddModule { hook: h, m: 23 });
+            steps.push(Step::AddModule { hook: h, m: 24 });
+        }
         for _ in 0..nsteps {
             let m = rng.below(3) as usize;
             let who = rng.below(3) as usize;
@@ -155,7 +167,7 @@ impl Check for RwaReal {
         let ident = e.register(NoClaims, ());
         let tok = e.register(Rwa, (comp.clone(), idv_id.clone()));
         let c = RwaClient::new(e, &tok);
-        let mods: std::vec::Vec<Address> = (0..3).map(|_| e.register(Module, ())).collect();
+        let mods: std::vec::Vec<Address> = (0..if cfg.many_modules { 25 } else { 3 }).map(|_| e.register(Module, ())).collect();
         let mut m = Model::default();
         for (i, s) in steps.iter().enumerate() {
             if let Step::Wait { n } = s {
@@ -173,6 +185,7 @@ impl Check for RwaReal {
                 Step::AddModule { hook, m: k } => {
                     let g = cc.try_add_module_to(&HOOKS[*hook], &mods[*k]).is_ok();
                     let x = !m.mods(*hook).contains(k) && m.mods(*hook).len() < 20;
+                    if m.mods(*hook).len() == 20 && !m.mods(*hook).contains(k) { st.hit("probe.max_modules_reached"); }
                     if x { m.hooks.entry(*hook).or_default().push(*k); }
                     outcome = Some(("add_module_to", g, x));
                 }
@@ -224,7 +237,7 @@ impl Check for RwaReal {
                 }
                 if !got && w.storage_digest(&[&tok, &comp, &mods[0], &mods[1], &mods[2]]) != before { return Err(violation("fail.no_trace", kind, i, format!("{s:?}"))); }
             }
-            for k in 0..3 {
+            for k in 0..mods.len() {
                 let have = ModuleClient::new(e, &mods[k]).counts();
                 if have != *m.counts.get(&k).unwrap_or(&(0, 0, 0)) { return Err(violation("notify.exactly_once", "module", i, format!("module {k} saw {have:?}, expected {:?} after {s:?}", m.counts.get(&k)))); }
             }
@@ -232,7 +245,7 @@ impl Check for RwaReal {
                 let got: std::vec::Vec<Address> = cc.get_modules_for_hook(&HOOKS[h]).iter().collect();
                 let want: std::vec::Vec<Address> = m.mods(h).iter().map(|k| mods[*k].clone()).collect();
                 if got != want { return Err(violation("modules.getters_eq_model", "get_modules_for_hook", i, format!("hook {h} after {s:?}"))); }
-                for k in 0..3 { if cc.is_module_registered(&HOOKS[h], &mods[k]) != m.mods(h).contains(&k) { return Err(violation("modules.getters_eq_model", "is_module_registered", i, format!("hook {h} module {k}"))); } }
+                for k in 0..mods.len() { if cc.is_module_registered(&HOOKS[h], &mods[k]) != m.mods(h).contains(&k) { return Err(violation("modules.getters_eq_model", "is_module_registered", i, format!("hook {h} module {k}"))); } }
             }
             for x in 0..cfg.actors { if c.balance(&a(x)) != m.b(x) { return Err(violation("state.model_eq", "balance", i, format!("actor {x} after {s:?}"))); } }
             st.state(&(m.hooks.clone(), m.bound, m.reg.clone()));
